@@ -8,6 +8,7 @@ from ..models import linktable
 ID = "C17"
 NEEDS_SHIM = False
 RULE = (
+    "every table is handed over written with tuples, with lists for the links, for the pairs, or for both (by case index); "
     "enumerated: all 625 link tables over 2 faces x 1 axis (exhaustive in both tiers); every single edit (both tiers) and "
     "every double edit (thorough: exhaustive; quick: seeded sample) of 7 consistent base tables over 2 faces x 2 axes and "
     "3 faces, where an edit replaces a link by None or by any (face in {0,1,2,7}, axis in {X,Y,Q}, reverse) triple; plus "
@@ -155,6 +156,14 @@ def run_case(ctx, desc):
     else:
         fc = {"face": t}
         expect = linktable.reciprocal(t, set(range(nf)), set(desc["axes"]))
+    # the same table written with lists instead of tuples (as it comes out of a JSON / YAML file) is the same table
+    spelling = ["tuples", "list-links", "list-pairs", "lists"][(ctx.case_index or 0) % 4]
+    if spelling != "tuples":
+        def respell(tab):
+            return {f: {a: (list if spelling != "list-links" else tuple)(
+                (list(lk) if (lk is not None and spelling != "list-pairs") else lk) for lk in lr) for a, lr in d.items()} for f, d in tab.items()}
+
+        fc = {k: respell(v) for k, v in fc.items()}
     ds = xr.Dataset(coords=coords)
     try:
         Grid(ds, coords=cm, face_connections=fc, periodic=False, autoparse_metadata=False)
@@ -163,7 +172,7 @@ def run_case(ctx, desc):
         accepted, err = False, e
     links = [lk for d in t.values() for lr in d.values() for lk in lr if lk is not None]
     kinds = sorted({("self" if False else "x", lk[1], lk[2]) for lk in links})
-    ckey = (fam, len(links), kinds, expect)
+    ckey = (fam, len(links), kinds, expect, spelling)
     ctx.judged(ckey, len(links) > 0)
     ctx.count("accepted" if accepted else "refused")
     ctx.count("model_accepts" if expect else "model_refuses")
@@ -174,7 +183,7 @@ def run_case(ctx, desc):
     if accepted != expect:
         ctx.violation(
             "accept-iff-reciprocal",
-            f"{fam}: Grid {'accepted' if accepted else 'refused (' + type(err).__name__ + ': ' + str(err)[:120] + ')'} "
+            f"{fam} (written with {spelling}): Grid {'accepted' if accepted else 'refused (' + type(err).__name__ + ': ' + str(err)[:120] + ')'} "
             f"a table the predicate {'accepts' if expect else 'rejects'}: {to_jsonable_table(t)}",
             desc=dict(desc, table=to_jsonable_table(t)),
         )
